@@ -475,9 +475,9 @@ class Repo:
 def norm(node: ast.AST) -> str:
     """whitespace-normal source text of a node (used for construct keys, never
     for deciding a rule)"""
-    from .canon import NormText
+    from .canon import NormText, canon_text
     try:
-        return NormText(" ".join(ast.unparse(node).split()))
+        return NormText(canon_text(" ".join(ast.unparse(node).split())))
     except Exception:  # pragma: no cover
         return NormText(type(node).__name__)
 
